@@ -301,6 +301,9 @@ func (e *dcEnv) dcDeliver(mbox string, wire []byte, timeout time.Duration, drain
 			stage = "mail"
 			if dcSay(cc, br, []byte("MAIL FROM:<sender@origin.example>\r\n"), timeout).Cls == "ok" {
 				stage = "rcpt"
+				// the inspected mailbox is the SECOND recipient of the transaction (a decoy comes first): every recipient,
+				// not just the first, must get the whole message
+				dcSay(cc, br, []byte("RCPT TO:<decoy@store.example>\r\n"), timeout)
 				if dcSay(cc, br, []byte("RCPT TO:<"+mbox+"@store.example>\r\n"), timeout).Cls == "ok" {
 					stage = "data"
 					if r := dcSay(cc, br, []byte("DATA\r\n"), timeout); r.Code == 354 {
@@ -540,6 +543,7 @@ func runDotCodecBehaviour(w *tr.Writer, b dcBehaviour, scratch string) {
 		}
 		rp, stage, extra, returned := e.dcDeliver(mbox, wire, timeout, it.Strict)
 		ev["smtp"] = tr.Ev{"cls": rp.Cls, "code": rp.Code, "stage": stage, "extra": extra, "returned": returned}
+		_ = e.store.PurgeMessages("decoy")
 		total, inbox, id, msg := e.count(mbox)
 		ev["total"], ev["inbox"] = total, inbox
 		if msg != nil {
